@@ -554,4 +554,29 @@ theorem wake_clears_left (s : St) (c : Cond) (t : Task) :
   · simp [St.wakeCond]
   · simp [St.wakeCond, List.mem_filter]
 
+/-! ### several waiters on one condition (`notify_waiters` wakes all, one wins, the losers poll again) -/
+
+theorem pending_registered_lem (evs : List Ev) (t : Task) (c : Cond)
+    (hw : (run slot init evs).waiting t = some c) :
+    (run slot init evs).woken t = true ∨ (c, t) ∈ (run slot init evs).regs :=
+  (inv_reach slot evs).pendingCovered t c hw
+
+/-- a poll that returns Pending — in particular the poll of a woken task that finds the condition consumed by
+    another task — leaves the task registered for the condition, waiting on it, with the wake flag cleared -/
+theorem poll_pending_lem (s : St) (t : Task) (c : Cond) (consume : Bool)
+    (hr : (s.poll slot t c consume).2 = false) :
+    (c, t) ∈ (s.poll slot t c consume).1.regs ∧ (s.poll slot t c consume).1.waiting t = some c ∧
+    (s.poll slot t c consume).1.woken t = false := by
+  unfold St.poll at hr ⊢
+  generalize (if s.waiting t = some c then s else s.dropFut slot t) = s1 at hr ⊢
+  by_cases hc : (s1.dead || s1.holds c) = true
+  · simp [hc] at hr
+  · simp only [hc, Bool.false_eq_true, if_false]
+    refine ⟨(mem_ins s1 c t _).2 (Or.inl rfl), ?_, ?_⟩ <;> simp [upd]
+
+/-- a wake of `c` reaches EVERY task registered for it, however many -/
+theorem wake_reaches_all (s : St) (c : Cond) (t : Task) (hr : (c, t) ∈ s.regs) :
+    (s.wakeCond c).woken t = true := by
+  simp [St.wakeCond, (reg_iff s c t).2 hr]
+
 end QM.Wake
